@@ -122,7 +122,8 @@ func run(repo, rt, out string) error {
 				}
 			}
 		}
-		gb.WriteString("}\n")
+		// the snapshot that "cold start" means: taken when the package has just been initialised, before anything used it
+		gb.WriteString("\tverifrt.SnapshotNewGlobals()\n}\n")
 		if nreg > 0 {
 			gf := filepath.Join(out, pi.pkg.Name()+"__verif_globals_gen.go")
 			if err := os.WriteFile(gf, []byte(gb.String()), 0o644); err != nil {
